@@ -9,7 +9,7 @@ from .runner import sut, expect, Fail, SutError
 
 warnings.filterwarnings('ignore')
 DEAD_END = ('IndexError', 'ValueError', 'OSError', 'IOError', 'ZeroDivisionError')
-SYM = {1: '', 2: '='}
+SYM = {1: '', 2: '=', 0: '.'}
 
 
 def norm(k):
@@ -43,6 +43,8 @@ def gen_cfg(R, tier, all_atom=None):
             for _ in range(nd):
                 a = R.choice(cands)
                 o = 2 if (free.get(a, 0) >= 2 and not m.atoms[a]['aromatic'] and R.chance(0.2)) else 1
+                if R.chance(0.07):
+                    o = 0       # a zero-order descriptor (association without a bond, e.g. counter ions)
                 if free.get(a, 0) < o:
                     continue
                 free[a] -= o
@@ -53,7 +55,7 @@ def gen_cfg(R, tier, all_atom=None):
             n = R.randint(1, 3)
             m = None
             for _ in range(nd):
-                k, lab, o = R.choice(['$', '$', '>', '<']), R.choice(labs), R.choice([1, 1, 1, 2])
+                k, lab, o = R.choice(['$', '$', '>', '<']), R.choice(labs), R.choice([1, 1, 1, 1, 1, 2, 2, 0])
                 d[R.randrange(n)].append((k, lab, o))
         if f == 0:
             # one guaranteed propagation pair
@@ -120,6 +122,10 @@ def gen_cfg(R, tier, all_atom=None):
                seed=R.randint(0, 10 ** 6), target=R.choice([0, 1, 10, 50, 120, -5]) if not all_atom else R.choice([0, 30, 150, 400]),
                start=R.choice([None, None, 'F0']), expected_mass=expected_mass)
     feats = {'all_atom' if all_atom else 'coarse', 'pr:' + style, 'nfrag:%d' % nfr}
+    if not all_atom and R.chance(0.12):
+        # a target a hair above a mass sum that growth can reach exactly: one more fragment is required
+        cfg['target'] = R.choice(sorted(masses.values())) * R.randint(2, 40) + R.choice([1e-4, 1e-6, 3e-3])
+        feats.add('target_just_above_a_reachable_sum')
     if explicit_aa_masses:
         feats.add('all_atom_with_given_masses')
         cfg['expected_mass'] = {}
